@@ -88,6 +88,11 @@ def specDefault (cf : Fields) (ct : Tags) (p : Point) : Point :=
   let r := specDefaultFT cf ct p.fields p.tags
   { p with fields := r.1, tags := r.2 }
 
+/-- default on a batch: the group tags are defaulted like the tags of a point (so the group may change), every point too. -/
+def specDefaultBatch (cf : Fields) (ct : Tags) (b : Batch) : Batch :=
+  { b with tags := (specDefaultFT cf ct [] b.tags).2,
+           points := b.points.map (fun p => let r := specDefaultFT cf ct p.fields p.tags; { p with fields := r.1, tags := r.2 }) }
+
 def specDeleteAt {α : Type} (ks : List String) (m : List (String × α)) (k : String) : Option α :=
   if ks.contains k then none else aget m k
 
@@ -95,6 +100,12 @@ def specDelete (df dt : List String) (p : Point) : Point :=
   { p with fields := tabulate (akeys p.fields) (specDeleteAt df p.fields),
            tags := tabulate (akeys p.tags) (specDeleteAt dt p.tags),
            dims := p.dims.filter (fun d => !dt.contains d) }
+
+/-- delete on a batch: deleted tags leave the group tags (and with them the dimensions), every point loses the listed keys. -/
+def specDeleteBatch (df dt : List String) (b : Batch) : Batch :=
+  { b with tags := tabulate (akeys b.tags) (specDeleteAt dt b.tags),
+           points := b.points.map (fun p => { p with fields := tabulate (akeys p.fields) (specDeleteAt df p.fields),
+                                                     tags := tabulate (akeys p.tags) (specDeleteAt dt p.tags) }) }
 
 def specShift (d : Int) (p : Point) : Point := { p with time := p.time + d }
 
@@ -296,23 +307,28 @@ def nonDecreasing (tol : Int) : List Int → Bool
 def groupTimesOrdered (tol : Int) (ps : List Point) : Bool :=
   ps.all (fun p => nonDecreasing tol ((ps.filter (fun q => q.gid = p.gid)).map (·.time)))
 
-/-- Split into maximal runs of equal rounded time. -/
-def buckets (tol : Int) : List BPoint → List (List BPoint)
+/-- Split into maximal runs of consecutive points with equal rounded time (`cur` = the run being collected). -/
+def bucketsGo (tol : Int) : List BPoint → List BPoint → List (List BPoint)
+  | cur, [] => if cur = [] then [] else [cur]
+  | cur, p :: ps =>
+    match cur.head? with
+    | none => bucketsGo tol [p] ps
+    | some q => if roundTo p.time tol = roundTo q.time tol then bucketsGo tol (cur ++ [p]) ps else cur :: bucketsGo tol [p] ps
+
+def buckets (tol : Int) (pts : List BPoint) : List (List BPoint) := bucketsGo tol [] pts
+
+/-- The point a bucket becomes: the group tags, the documented fields, the (rounded) time of the bucket. -/
+def specFlatPoint (c : FlattenCfg) (gtags : Tags) (bk : List BPoint) : BPoint :=
+  { tags := gtags, fields := specFlatFields c bk, time := roundTo ((bk.head?.map (·.time)).getD 0) c.tol }
+
+/-- One point per bucket; a bucket without any field is dropped — except the last one of the batch (closed by EndBatch). -/
+def specFlatBuckets (c : FlattenCfg) (gtags : Tags) : List (List BPoint) → List BPoint
   | [] => []
-  | p :: ps =>
-    match buckets tol ps with
-    | [] => [[p]]
-    | (q :: b) :: bs => if roundTo p.time tol = roundTo q.time tol then (p :: q :: b) :: bs else [p] :: (q :: b) :: bs
-    | [] :: bs => [p] :: bs
+  | [bk] => [specFlatPoint c gtags bk]
+  | bk :: rest => (if specFlatFields c bk = [] then [] else [specFlatPoint c gtags bk]) ++ specFlatBuckets c gtags rest
 
 def specFlattenBatch (c : FlattenCfg) (b : Batch) : Batch :=
-  let bs := buckets c.tol b.points
-  let n := bs.length
-  { b with points := (bs.zipIdx).filterMap (fun (bk, i) =>
-      let fields := specFlatFields c bk
-      -- a bucket closed by a later point is dropped when it has no field; the last one (closed by EndBatch) is not
-      if fields = [] && i + 1 < n then none else
-      some { tags := b.tags, fields := fields, time := roundTo ((bk.head?.map (·.time)).getD 0) c.tol }) }
+  { b with points := specFlatBuckets c b.tags (buckets c.tol b.points) }
 
 /-! ## combine -/
 
